@@ -487,7 +487,11 @@ func (mbox *MailboxView) staticNumSet(numSet imap.NumSet) imap.NumSet {
 }
 
 func (mbox *Mailbox) staticUIDSetLocked(uidSet imap.UIDSet) imap.UIDSet {
-	max := uint32(mbox.uidNext) - 1
+	// "*" is the largest UID in use, not the last one which was assigned
+	var max uint32
+	if len(mbox.l) > 0 {
+		max = uint32(mbox.l[len(mbox.l)-1].uid)
+	}
 	var static imap.UIDSet
 	for _, r := range uidSet {
 		start, stop := uint32(r.Start), uint32(r.Stop)
